@@ -71,6 +71,22 @@ impl CKBProtocolHandler for SyncProtocol {
                 // Only the header of a matched block is proved: the body has to be the one that
                 // header commits to, before any of it is indexed.
                 {
+                    // The extension is an extra field, which the message parser did not verify.
+                    let is_extension_malformed = new_block.count_extra_fields() > 0
+                        && packed::BlockV1Reader::from_compatible_slice(new_block.as_slice())
+                            .is_err();
+                    if is_extension_malformed {
+                        warn!(
+                            "SyncProtocol.received a block with a malformed extension from Peer({})",
+                            peer
+                        );
+                        nc.ban_peer(
+                            peer,
+                            BAD_MESSAGE_BAN_TIME,
+                            String::from("send us a block with a malformed extension"),
+                        );
+                        return;
+                    }
                     let view = new_block.clone().into_view_without_reset_header();
                     if view.transactions_root() != view.calc_transactions_root()
                         || view.extra_hash() != view.calc_extra_hash().extra_hash()
